@@ -702,7 +702,8 @@ def table_check(dg, holes_model, obs_name, stale_groups=()):
         found = _table_one(tables, g, owners, holes_model, obs_name, stats)
         if found:
             pre = _table_preconditions(g, owners, holes_model, stale_groups, obs_name)
-            if pre is not None and not any(w.endswith(":no-rows-at-all") for _, w, _ in found):
+            only_d6 = all(w.endswith("depth_table-raises:IndexError:no-rows-at-all") for _, w, _ in found)
+            if pre is not None and not only_d6:
                 found = [(C, f"{obs_name}:table-wrong:{pre}", {"group": g, "symptoms": sorted({w for _, w, _ in found}), "first": found[0][2]})]
         out += found
     return out, stats
